@@ -1,5 +1,6 @@
 import Zc.Proofs.SurviveHost
 import Zc.Proofs.SurviveComp
+import Zc.Proofs.SurviveLive
 import Zc.Props.C15Route
 import Zc.Props.C02
 /-! # C15 — a running instance survives any datagram stream
@@ -257,6 +258,193 @@ example : RouteOK exRestAll (fun _ => True) :=
 example : CInv lower ettl (fun _ : Unit => True) ⟨{}, [], [], {}, none, ()⟩ := CInv.init lower ettl _ () trivial
 
 end composed
+
+/-! ## The third clause: "the instance keeps working"
+
+"… a well-formed query sent afterwards is still answered and an announcement sent afterwards still
+reaches its browsers."  The theorems above conclude survival (`.ok` and the invariants); the ones below
+say what the *next* datagram does in any state the invariants describe — in particular after any
+history (`C15_after_history`).  What a hostile stream can leave behind in the listener is the
+duplicate-guard memory and the deferral tables; neither can keep a fresh datagram from its handler. -/
+
+section keeps_working
+variable {σ ω : Type}
+
+/-- the invariants hold after every history that ran to its end -/
+theorem C15_after_history {β : Type} {D : Down σ ω} {I : σ → Prop} (hD : DownOK D I QASafe)
+    (other : σ → β → Except PyExc (σ × List ω)) (hO : ∀ d b, I d → ∃ d' o, other d b = .ok (d', o) ∧ I d')
+    (d0 : σ) (h0 : I d0) (bs : List (Survive.Block β)) (s1 : State σ) (o1 : List (Out ω))
+    (h : run D other (State.init d0) bs = .ok (s1, o1)) : I s1.down ∧ LInv s1 :=
+  run_inv hD sendOK_safe other hO bs (State.init d0) s1 o1 h0 (LInv.init d0) h
+
+/-- **every history, the illegal ones named** (replaces the `KeyError` marker of
+`C15_history_partial` by what it stands for): a history either runs to its end with the invariants in
+force, or it contains a deferred-query timer block for an address whose timer is not armed at that
+point, everything before it having run normally.  No other block can stop a history. -/
+theorem C15_history_legal_partial {β : Type} {D : Down σ ω} {I : σ → Prop} (hD : DownOK D I QASafe)
+    (other : σ → β → Except PyExc (σ × List ω)) (hO : ∀ d b, I d → ∃ d' o, other d b = .ok (d', o) ∧ I d')
+    (d0 : σ) (h0 : I d0) (bs : List (Survive.Block β)) :
+    (∃ s' out, run D other (State.init d0) bs = .ok (s', out) ∧ I s'.down ∧ LInv s') ∨
+      (∃ pre addr post s1 o1, bs = pre ++ Survive.Block.tcFire addr :: post ∧
+        run D other (State.init d0) pre = .ok (s1, o1) ∧ alGet addr s1.timers = none) :=
+  run_ok' hD sendOK_safe other hO bs (State.init d0) h0 (LInv.init d0)
+
+/-- the duplicate guard only fires for the remembered bytes … -/
+theorem C15_guard_needs_same_bytes (s : State σ) (data : Bytes) (now : Ms) (h : s.data ≠ some data) :
+    guardHit s data now = false := guardHit_false_of_ne s data now h
+
+/-- … and only within 1000 ms of the last datagram that was *processed* (a dropped duplicate does not
+move the window: `recv` returns the state unchanged for it) -/
+theorem C15_guard_needs_recent (s : State σ) (data : Bytes) (now : Ms) (h : s.lastTime + 1000 ≤ now) :
+    guardHit s data now = false := guardHit_false_of_old s data now h
+
+/-- **A well-formed query sent afterwards is still answered** (`_partial`: generic in the downstream,
+`DownOK`).  In every state satisfying the invariants, a valid untruncated query of at most 8966 bytes
+that the duplicate guard does not drop — different bytes, or ≥ 1 s since the last processed datagram —
+is handed to the answer computation (together with what was deferred for its address),
+`datagram_received` returns with tag `responded`, and the unicast and immediate-multicast answer
+sets the computation returns are sent inside the block (`Sent`). -/
+theorem C15_query_still_answered_partial {D : Down σ ω} {I : σ → Prop} (hD : DownOK D I QASafe)
+    (s : State σ) (hI : I s.down) (hL : LInv s) (data : Bytes) (addr : Addr) (port : Nat) (now : Ms) (draw : Nat) (p : Parsed)
+    (hsize : data.length ≤ 8966) (hg : guardHit s data now = false) (hp : (parse data).out = .ok p)
+    (hv : p.valid = true) (hq : Gen.Listener.is_query p.hdr.flags = true) (htc : Gen.Listener.truncated p.hdr.flags = false)
+    (he : D.hasEntries s.down = true) :
+    ∃ d1 qa s' out,
+      D.answer s.down ((alGet addr s.deferred).getD [] ++ [⟨data, now, p, none⟩]) (Gen.Listener.ucast_source port) = .ok (d1, qa) ∧
+      recv D s data addr port now draw = .ok (s', out, .responded ((alGet addr s.deferred).getD [] ++ [(⟨data, now, p, none⟩ : Pkt)]).length) ∧
+      I s'.down ∧ LInv s' ∧ Sent addr port qa out :=
+  recv_query_answered hD sendOK_safe s hI hL data addr port now draw p hsize hg hp hv hq htc he
+
+/-- **An announcement sent afterwards still reaches the record manager** (`_partial`, same): a valid
+response the duplicate guard does not drop is ingested, and everything the ingestion emits — the
+listeners' callbacks — is what the block emits. -/
+theorem C15_response_still_ingested_partial {D : Down σ ω} {I : σ → Prop} (hD : DownOK D I QASafe)
+    (s : State σ) (hI : I s.down) (hL : LInv s) (data : Bytes) (addr : Addr) (port : Nat) (now : Ms) (draw : Nat) (p : Parsed)
+    (hsize : data.length ≤ 8966) (hg : guardHit s data now = false) (hp : (parse data).out = .ok p)
+    (hv : p.valid = true) (hq : Gen.Listener.is_query p.hdr.flags = false) :
+    ∃ d' o s', D.ingest s.down ⟨data, now, p, none⟩ = .ok (d', o) ∧
+      recv D s data addr port now draw = .ok (s', o.map Out.down, .response) ∧ s'.down = d' ∧ I d' ∧ LInv s' :=
+  recv_response_ingested hD s hI hL data addr port now draw p hsize hg hp hv hq
+
+end keeps_working
+
+section keeps_working_composed
+open Zc.Survive.Comp
+variable (lower : String → String) (possible : String → List String) (ettl : Nat)
+variable {ρ ω' : Type} (R : Rest ρ ω') (Iρ : ρ → Prop)
+
+/-- **Every cached name can be written back** (the D8b clause of `CInv`, spelled out): after any
+history, each name of each record object in the cache is the text of a wire name of at most 253
+characters on which `write_name` can only raise the pointer `IndexError`, never
+`NamePartTooLongException`. -/
+theorem C15_cached_names_writeback {d : CState ρ} (hI : CInv lower ettl Iρ d) :
+    ∀ kb ∈ d.cache.cache ++ d.cache.svc, ∀ r ∈ kb.2, ∀ s ∈ recNames r,
+      ∃ n : WName, s = textOfName n ∧ nameLen n ≤ 253 ∧
+        ∀ (size : Nat) (names : Encode.Names) (e : PyExc), writeBack size names n = .error e → e = .indexError :=
+  cached_names_writeback lower ettl Iρ hI
+
+/-- **D8b's site is covered**: the known-answer section the browsers' scheduler timer and the lookups
+build from cache content never makes `packets()` raise `NamePartTooLongException` (`TextGlue`: the
+text-layer identity `write_name(text of n)` = `reencName n`, the standing trusted glue). -/
+theorem C15_known_answers_no_name_part_too_long (glue : TextGlue) {d : CState ρ} (hI : CInv lower ettl Iρ d)
+    (flags id : Nat) (mc : Bool) (qs : List Encode.EQuestion) (hq : ∀ q ∈ qs, ∀ x ∈ q.name, x.length ≤ 63)
+    (known : List (Rec × Ms))
+    (hk : ∀ x ∈ known, (∃ kb ∈ d.cache.cache ++ d.cache.svc, x.1 ∈ kb.2) ∧ x.1.rdata.kind ≠ .hinfo) :
+    Encode.packets ⟨flags, id, mc, qs, known.map (fun x => (wireOfRec x.1, x.2)), [], []⟩ ≠ .error .namePartTooLong :=
+  known_answers_no_npl lower ettl Iρ glue hI flags id mc qs hq known hk
+
+/-- **A query for a registered record is offered to the routing** (composed; C03's completeness).
+Under `CInv`: if a question of the assembled query asks for a record `r` of a registered service and the
+known answers do not suppress it, the answer computation returns a map containing `r` (up to identity),
+and `async_response` is the routing applied to that map.  What is *not* proved here and is named:
+`_QueryResponse` places every key of the map into one of its four sets (C12_immediate / C12_aggregated /
+C12_one_sec_qm classify them), and the two queues put the aggregated sets on the wire within 500 / 1200 ms
+(C12_on_wire). -/
+theorem C15_query_offered_composed {d : CState ρ} (hI : CInv lower ettl Iρ d) (ks : List Pkt) (u : Bool)
+    {q : Question} (hq : q ∈ questionsOf (ks.map msgOf)) {s : Svc} (hs : s ∈ d.reg.services) {r : Rec}
+    (hr : r ∈ RespSpec.candidates lower ettl s q)
+    (hk : RespSpec.isNsec r = true ∨ suppresses lower (knownOf (ks.map msgOf)) r = false) :
+    ∃ dict reg', Zc.respond lower ettl d.reg (ks.map msgOf) = .ok (some dict, reg') ∧
+      (∃ a ∈ dict.map (·.1), a.beq lower r = true) ∧
+      Comp.answer lower ettl R d ks u =
+        match R.route d.rest d.cache ks u dict with
+        | .error e => .error e
+        | .ok (rest', sel) =>
+          .ok ({ d with reg := reg', rest := rest', pending := some sel },
+               some ⟨setOf lower sel.ucast, setOf lower sel.mcastNow, !sel.aggregate.isEmpty, !sel.aggregateLast.isEmpty⟩) :=
+  comp_answer_offers lower ettl R Iρ hI ks u hq hs hr hk
+
+/-- **An announcement sent afterwards still reaches its browsers** (composed, `_partial`:
+`ListenersOK`, `RouteOK`, `QueueOK`).  After ANY history of blocks from a state satisfying `CInv`: a
+valid response of at most 8966 bytes that the duplicate guard does not drop and that carries a pointer
+record which is alive after the PTR TTL floor, is not cached, and whose owner matches a type `t` browsed
+by a registered browser makes `datagram_received` return normally **with that browser's `Added(t, alias)`
+callback among the block's outputs**. -/
+theorem C15_announcement_reaches_browser_partial {β : Type} (hL : ListenersOK R Iρ) (hR : RouteOK R Iρ) (hQ : QueueOK R Iρ)
+    (other : CState ρ → β → Except PyExc (CState ρ × List (COut ω')))
+    (hO : ∀ d b, CInv lower ettl Iρ d → ∃ d' o, other d b = .ok (d', o) ∧ CInv lower ettl Iρ d')
+    (d0 : CState ρ) (h0 : CInv lower ettl Iρ d0) (bs : List (Survive.Block β)) (s1 : State (CState ρ)) (o1 : List (Out (COut ω')))
+    (hrun : run (Comp.down lower possible ettl R) other (State.init d0) bs = .ok (s1, o1))
+    (data : Bytes) (addr : Addr) (port : Nat) (now : Ms) (draw : Nat) (p : Parsed)
+    (hsize : data.length ≤ 8966) (hg : guardHit s1 data now = false) (hp : (parse data).out = .ok p)
+    (hv : p.valid = true) (hq : Gen.Listener.is_query p.hdr.flags = false)
+    {w : Rec} (hw : w ∈ recsOf ⟨data, now, p, none⟩) {alias t : String}
+    (hty : w.type = Gen.typePtr) (hrd : w.rdata = .ptr alias)
+    (hlive : (floorPtr (w.setLife now w.ttl)).isExpired now = false)
+    (hnew : Cache.getUnique lower s1.down.cache (floorPtr (w.setLife now w.ttl)) = none)
+    {b : Browser} (hb : b ∈ s1.down.browsers) (ht : t ∈ b.types) (hposs : (possible w.name).contains t = true) :
+    ∃ s' out i, recv (Comp.down lower possible ettl R) s1 data addr port now draw = .ok (s', out, .response) ∧
+      Out.down (COut.callback i ⟨.added, t, alias⟩) ∈ out := by
+  have hD := C15_down_composed lower possible ettl R Iρ hL hR hQ
+  obtain ⟨hI1, hL1⟩ := C15_after_history hD other hO d0 h0 bs s1 o1 hrun
+  obtain ⟨p', hp', hk⟩ := parse_pkt data now
+  rw [hp] at hp'
+  cases hp'
+  obtain ⟨d', out, i, hi, hmem⟩ := comp_ingest_added lower possible ettl R Iρ hL hI1 ⟨data, now, p, none⟩ hk hw hty hrd hlive hnew hb ht hposs
+  have heq := recv_response_eq (Comp.down lower possible ettl R) s1 data addr port now draw p hsize hg hp hv hq
+  have hi' : (Comp.down lower possible ettl R).ingest s1.down ⟨data, now, p, none⟩ = .ok (d', out) := hi
+  rw [hi'] at heq
+  exact ⟨_, _, i, heq, List.mem_map_of_mem hmem⟩
+
+/-- **A well-formed query sent afterwards is still answered** (composed, `_partial`, same residue).
+After ANY history from a state satisfying `CInv`: a valid untruncated query the duplicate guard does not
+drop, one of whose questions asks for a record `r` of a registered service (not suppressed by its known
+answers), makes `datagram_received` return normally with tag `responded`; the answer computation has
+offered `r` to the routing, and the unicast / immediate-multicast sets the routing selected are sent
+inside the block.  (That the routing selects `r` for one of its four sets, and that the queued sets
+leave within their windows, is C12's — named in `C15_query_offered_composed`.) -/
+theorem C15_query_reaches_responder_partial {β : Type} (hL : ListenersOK R Iρ) (hR : RouteOK R Iρ) (hQ : QueueOK R Iρ)
+    (other : CState ρ → β → Except PyExc (CState ρ × List (COut ω')))
+    (hO : ∀ d b, CInv lower ettl Iρ d → ∃ d' o, other d b = .ok (d', o) ∧ CInv lower ettl Iρ d')
+    (d0 : CState ρ) (h0 : CInv lower ettl Iρ d0) (bs : List (Survive.Block β)) (s1 : State (CState ρ)) (o1 : List (Out (COut ω')))
+    (hrun : run (Comp.down lower possible ettl R) other (State.init d0) bs = .ok (s1, o1))
+    (data : Bytes) (addr : Addr) (port : Nat) (now : Ms) (draw : Nat) (p : Parsed)
+    (hsize : data.length ≤ 8966) (hg : guardHit s1 data now = false) (hp : (parse data).out = .ok p)
+    (hv : p.valid = true) (hq : Gen.Listener.is_query p.hdr.flags = true) (htc : Gen.Listener.truncated p.hdr.flags = false)
+    (he : s1.down.reg.hasEntries = true)
+    {q : Question} (hqq : q ∈ (msgOf ⟨data, now, p, none⟩).questions) {s : Svc} (hs : s ∈ s1.down.reg.services) {r : Rec}
+    (hr : r ∈ RespSpec.candidates lower ettl s q)
+    (hk : RespSpec.isNsec r = true ∨
+      suppresses lower (knownOf (((alGet addr s1.deferred).getD [] ++ [(⟨data, now, p, none⟩ : Pkt)]).map msgOf)) r = false) :
+    ∃ dict reg' d1 qa s' out,
+      Zc.respond lower ettl s1.down.reg (((alGet addr s1.deferred).getD [] ++ [(⟨data, now, p, none⟩ : Pkt)]).map msgOf) = .ok (some dict, reg') ∧
+      (∃ a ∈ dict.map (·.1), a.beq lower r = true) ∧
+      Comp.answer lower ettl R s1.down ((alGet addr s1.deferred).getD [] ++ [⟨data, now, p, none⟩]) (Gen.Listener.ucast_source port) = .ok (d1, qa) ∧
+      recv (Comp.down lower possible ettl R) s1 data addr port now draw =
+        .ok (s', out, .responded ((alGet addr s1.deferred).getD [] ++ [(⟨data, now, p, none⟩ : Pkt)]).length) ∧
+      Sent addr port qa out := by
+  have hD := C15_down_composed lower possible ettl R Iρ hL hR hQ
+  obtain ⟨hI1, hL1⟩ := C15_after_history hD other hO d0 h0 bs s1 o1 hrun
+  obtain ⟨d1, qa, s', out, ha, hrecv, _, _, hsent⟩ :=
+    C15_query_still_answered_partial hD s1 hI1 hL1 data addr port now draw p hsize hg hp hv hq htc he
+  have hqmem : q ∈ questionsOf (((alGet addr s1.deferred).getD [] ++ [(⟨data, now, p, none⟩ : Pkt)]).map msgOf) := by
+    unfold questionsOf
+    rw [List.mem_flatMap]
+    exact ⟨msgOf ⟨data, now, p, none⟩, by simp, hqq⟩
+  obtain ⟨dict, reg', hresp, hkey, _⟩ := comp_answer_offers lower ettl R Iρ hI1 _ (Gen.Listener.ucast_source port) hqmem hs hr hk
+  exact ⟨dict, reg', d1, qa, s', out, hresp, hkey, ha, hrecv, hsent⟩
+
+end keeps_working_composed
 
 /-- the full-strength statement of DESIGN §7 (no hypotheses on the downstream components): not proved
 here — it needs the C03/C05/C06/C04/C12 models composed into one `Down` instance. -/
